@@ -22,9 +22,10 @@ use serde_json::json;
 use std::ffi::CString;
 use std::path::{Path, PathBuf};
 use std::ptr;
-use vh_common::{Case, Run, brief, first_diff, trap};
+use vh_common::{Case, Rng, Run, brief, first_diff, fnv64, gen_content, trap};
 use vh_ffi::storm::*;
-use wow_mpq::Archive;
+use wow_mpq::compression::CompressionMethod;
+use wow_mpq::{AddFileOptions, Archive, MutableArchive};
 
 const VERIFY_SECTOR_CRC: u32 = 0x01;
 const VERIFY_FILE_CRC: u32 = 0x02;
@@ -256,7 +257,185 @@ fn fspecs(thorough: bool) -> Vec<FSpec> {
             v.push(FSpec { kind: "concurrent-verify", cfg: cfg.clone(), file, region: "file_data", ck: "x01", flags: ARCHIVE_WIDE });
         }
     }
+    // ---- bzip2 / LZMA / sparse sectors and fix-key encryption under CRC32 + MD5 attributes (K9 of the vh-mpq worker)
+    for cfg in codec_cfgs(thorough, 2) {
+        for file in 0..3 {
+            for &region in file_regions(file) {
+                if !thorough && !(region == "file_data" && file != 1) {
+                    continue;
+                }
+                for &ck in cks {
+                    v.push(FSpec { kind: "attributes", cfg: cfg.clone(), file, region, ck, flags: ATTR_FLAGS });
+                }
+            }
+            if thorough {
+                v.push(FSpec { kind: "attributes", cfg: cfg.clone(), file, region: "file_data", ck: "x01", flags: ARCHIVE_WIDE });
+            }
+        }
+    }
+    // ---- archives whose integrity metadata is NOT the builder's: a file added through MutableArchive (+ flush, which
+    // rewrites the attributes), or the whole content added through SFileCreateArchive2 + SFileAddFileEx + SFileFlushArchive.
+    // V1 / V2 and add + flush only (V3+ modification and compaction are known findings of C06).
+    // (version, shift, codec of the added file, encrypted, fix key, attributes)
+    let fresh_all: &[(u8, u16, u8, bool, bool, u8)] = &[
+        (1, 0, 0, false, false, 1),
+        (2, 3, 0x02, true, false, 2),
+        (1, 0, 0x10, true, true, 1),
+        (2, 0, 0x02, false, false, 2),
+        (1, 3, 0x12, false, false, 2),
+        (2, 0, 0x20, true, false, 1),
+        (1, 0, 0, true, true, 2),
+        (2, 3, 0x10, false, false, 1),
+    ];
+    for (k, &(version, shift, method, enc, fixkey, attr)) in fresh_all[..if thorough { fresh_all.len() } else { 3 }].iter().enumerate() {
+        let cfg = ArcCfg { version, shift, method, enc, attr, tblcomp: false, signed: 0, prefix: 0, fixkey, tblcodec: 0 };
+        for kind in ["fresh-attrs-mutable", "fresh-attrs-capi"] {
+            let sels: &[u32] = if thorough { flag_selections(attr) } else if k == 0 { &[ATTR_FLAGS, ARCHIVE_WIDE] } else { &[ATTR_FLAGS] };
+            for &flags in sels {
+                v.push(FSpec { kind, cfg: cfg.clone(), file: NOFILE, region: "added:file_data", ck: "x01", flags });
+            }
+        }
+    }
     v
+}
+
+const ADDED_NAME: &str = "added\\fresh.dat";
+
+fn codec_enum(m: u8) -> CompressionMethod {
+    match m {
+        0x02 => CompressionMethod::Zlib,
+        0x10 => CompressionMethod::BZip2,
+        0x12 => CompressionMethod::Lzma,
+        0x20 => CompressionMethod::Sparse,
+        _ => CompressionMethod::None,
+    }
+}
+
+fn added_content(seed: u64, cfg: &ArcCfg, lane: u64, len: usize) -> Vec<u8> {
+    let mut rng = Rng::for_case(seed, fnv64(cfg.label().as_bytes()), lane);
+    let n = len + rng.usize(300);
+    let mut d = gen_content(&mut rng, "text", n);
+    if cfg.method == 0x20 {
+        let n = d.len();
+        d[n / 4..n / 2].fill(0);
+    }
+    d
+}
+
+/// Appending grows the V1/V2 block table in place by 16 bytes per new block while the appended data starts at the next
+/// 512-byte boundary behind it: with less slack than that the first added bytes are overwritten (known finding of C06,
+/// `block-table growth past the slack`). Those archives are not this check's business.
+fn slack_ok(archive_len: usize, new_blocks: usize) -> bool {
+    let slack = (512 - archive_len % 512) % 512;
+    slack >= 16 * new_blocks
+}
+
+/// After the archive at b.path was changed by the library: the region map of what is swept (file data of `names`), taken
+/// from the library's own find_file answers. Files the builder wrote must still sit where they were.
+fn remap(b: &Built, added: &[(String, Vec<u8>)]) -> Result<Built, String> {
+    let bytes = std::fs::read(&b.path).map_err(|e| e.to_string())?;
+    let a = Archive::open(&b.path).map_err(|e| format!("open after modification failed: {e}"))?;
+    let mut files: Vec<StoredFile> = Vec::new();
+    let mut regions: Vec<Region> = Vec::new();
+    for f in b.files.iter().filter(|f| matches!(f.shape, "single" | "3-sector" | "9-sector" | "empty")) {
+        let fi = a.find_file(&f.name).map_err(|e| e.to_string())?.ok_or(format!("{} is gone after the modification", f.name))?;
+        if fi.file_pos as usize != f.pos || fi.compressed_size as usize != f.csize || fi.flags != f.flags {
+            return Err(format!("{} moved / changed its block although it was not touched", f.name));
+        }
+        let old = b.files.iter().position(|x| x.name == f.name);
+        for r in b.regions.iter().filter(|r| r.file == old && old.is_some()) {
+            regions.push(Region { kind: r.kind, file: Some(files.len()), ranges: r.ranges.clone() });
+        }
+        files.push(f.clone());
+    }
+    for (name, data) in added {
+        let fi = a.find_file(name).map_err(|e| e.to_string())?.ok_or(format!("{name} is not in the archive after add + flush"))?;
+        let (pos, csize) = (fi.file_pos as usize, fi.compressed_size as usize);
+        if pos + csize > bytes.len() {
+            return Err(format!("{name}: block beyond the end of the file"));
+        }
+        if fi.flags & FLAG_SINGLE_UNIT == 0 {
+            return Err(format!("{name}: added file is not stored as a single unit (flags {:08x}); no region map for that", fi.flags));
+        }
+        regions.push(Region { kind: "file_data", file: Some(files.len()), ranges: vec![(pos, pos + csize)] });
+        files.push(StoredFile { name: name.clone(), shape: "added", data: data.clone(), pos, csize, fsize: fi.file_size as usize, flags: fi.flags, block_index: fi.block_index, stored: csize });
+    }
+    Ok(Built { path: b.path.clone(), bytes, files, regions, sector: b.sector, baseline_md5: None })
+}
+
+/// Witness detail: what the (attributes) file of the archive says about each file next to what an independent CRC-32 / MD5 of
+/// the content that was added gives.
+fn stored_vs_actual(fb: &Built) -> serde_json::Value {
+    let r = trap(|| -> Vec<serde_json::Value> {
+        let Ok(mut a) = Archive::open(&fb.path) else { return vec![json!("archive does not open")] };
+        let loaded = a.load_attributes().map_err(|e| e.to_string());
+        fb.files
+            .iter()
+            .map(|f| {
+                let at = a.get_file_attributes(f.block_index);
+                json!({"name": f.name, "shape": f.shape, "block_index": f.block_index, "load_attributes": format!("{loaded:?}"),
+                       "stored_crc32": at.as_ref().and_then(|x| x.crc32).map(|x| format!("{x:08x}")), "content_crc32": format!("{:08x}", crc32(&f.data)),
+                       "stored_md5": at.as_ref().and_then(|x| x.md5).map(|x| vh_common::hex(&x)), "content_md5": vh_common::hex(&md5(&f.data))})
+            })
+            .collect()
+    });
+    json!(r.unwrap_or_default())
+}
+
+/// Everything through the C API: SFileCreateArchive2(attr flags) + SFileAddFileEx per file + SFileFlushArchive; the
+/// still-open (mutable) handle is then asked to verify what it has just written; SFileCloseArchive.
+/// Runs in a child (a panic inside extern "C" aborts). Answer: Detected("ok|<json>") or Detected("fail|<step>").
+fn capi_create(path: &Path, cfg: &ArcCfg, files: &[(String, Vec<u8>)], scratch: &Path) -> Verdict {
+    isolated(scratch, || unsafe {
+        let _ = std::fs::remove_file(path);
+        let mut info: SFILE_CREATE_MPQ = std::mem::zeroed();
+        info.cb_size = std::mem::size_of::<SFILE_CREATE_MPQ>() as u32;
+        info.mpq_version = cfg.version as u32;
+        info.file_flags_1 = 1;
+        info.file_flags_2 = 1;
+        info.attr_flags = if cfg.attr == 2 { 0x01 | 0x02 | 0x04 } else { 0x01 };
+        info.sector_size = cfg.shift as u32;
+        info.max_file_count = 16;
+        let p = CString::new(path.to_string_lossy().as_bytes()).unwrap();
+        let mut h: HANDLE = ptr::null_mut();
+        if !SFileCreateArchive2(p.as_ptr(), &info, &mut h) {
+            return Verdict::Detected(format!("fail|SFileCreateArchive2 (error {})", SFileGetLastError()));
+        }
+        let empty_len = std::fs::metadata(path).map(|m| m.len() as usize).unwrap_or(0);
+        if !slack_ok(empty_len, files.len()) {
+            SFileCloseArchive(h);
+            return Verdict::Detected("fail|c06-slack".into());
+        }
+        for (k, (name, data)) in files.iter().enumerate() {
+            let src = scratch.join(format!("c10f-src-{}-{k}.bin", std::process::id()));
+            if std::fs::write(&src, data).is_err() {
+                return Verdict::Detected("fail|harness cannot write the source file".into());
+            }
+            let cs = CString::new(src.to_string_lossy().as_bytes()).unwrap();
+            let cn = CString::new(name.as_str()).unwrap();
+            let fl = if cfg.enc { 0x0001_0000u32 } else { 0 } | if cfg.enc && cfg.fixkey { 0x0002_0000 } else { 0 };
+            let ok = SFileAddFileEx(h, cs.as_ptr(), cn.as_ptr(), fl, cfg.method as u32, 0);
+            let _ = std::fs::remove_file(&src);
+            if !ok {
+                SFileCloseArchive(h);
+                return Verdict::Detected(format!("fail|SFileAddFileEx (error {})", SFileGetLastError()));
+            }
+        }
+        if !SFileFlushArchive(h) {
+            SFileCloseArchive(h);
+            return Verdict::Detected(format!("fail|SFileFlushArchive (error {})", SFileGetLastError()));
+        }
+        // the handle that wrote the metadata verifies it (ArchiveHandle::Mutable arm)
+        let mut per_file = Vec::new();
+        for (name, _) in files {
+            let cn = CString::new(name.as_str()).unwrap();
+            let ok = SFileVerifyFile(h, cn.as_ptr(), ATTR_FLAGS);
+            per_file.push(json!({"name": name, "ok": ok, "err": if ok { 0 } else { SFileGetLastError() }}));
+        }
+        let all = SFileVerifyArchive(h, VERIFY_ALL_FILES);
+        SFileCloseArchive(h);
+        Verdict::Detected(format!("ok|{}", json!({"files": per_file, "archive": all})))
+    })
 }
 
 fn main() {
@@ -287,6 +466,8 @@ fn main() {
             };
             if sp.kind == "concurrent-verify" {
                 concurrent_case(c, sp, &b, phase);
+            } else if sp.kind.starts_with("fresh-attrs") {
+                fresh_case(c, sp, &b, seed, stride, phase);
             } else {
                 attr_case(c, sp, &b, stride, phase);
             }
@@ -347,6 +528,211 @@ fn baseline(c: &mut Case, sp: &FSpec, b: &Built) -> bool {
             c.violate(format!("intact-fails|attributes|SFileVerifyFile|archive|{method}|{enc}|{s}{}", off_sfx(&sp.cfg)), format!("verifying the unmodified archive crashes: {s}"), json!({}));
             false
         }
+    }
+}
+
+/// Integrity metadata written by the modification path (not by ArchiveBuilder): the intact archive verifies (every file,
+/// every flag selection, the archive-wide verifier, and - C-API route - the handle that wrote it), and alterations of the
+/// added file's stored bytes are detected or harmless.
+fn fresh_case(c: &mut Case, sp: &FSpec, base: &Built, seed: u64, stride: usize, phase: usize) {
+    let (method, enc) = (method_name(sp.cfg.method), sp.cfg.enc_name());
+    let route = if sp.kind == "fresh-attrs-capi" { "SFileCreateArchive2+SFileAddFileEx" } else { "MutableArchive::add_file_data" };
+    let scratch = base.path.parent().unwrap().to_path_buf();
+    let akind = format!("{}{}", attr_name(sp.cfg.attr), flags_sfx(sp.flags));
+    let fl = flags_name(sp.flags);
+    c.count(&format!("fresh_metadata_cases|{route}"), 1);
+    let fb: Built = if sp.kind == "fresh-attrs-capi" {
+        let files: Vec<(String, Vec<u8>)> = vec![
+            ("one.txt".to_string(), added_content(seed, &sp.cfg, 0xA1, 300)),
+            (ADDED_NAME.to_string(), added_content(seed, &sp.cfg, 0xA2, 900)),
+            ("(odd) name.bin".to_string(), added_content(seed, &sp.cfg, 0xA3, 2500)),
+        ];
+        let answer = match capi_create(&base.path, &sp.cfg, &files, &scratch) {
+            Verdict::Detected(s) => s,
+            Verdict::Crash(s) => {
+                c.violate(format!("intact-fails|attributes|{route}|crash|{s}"), format!("creating an archive through the C API ({method}, {enc}, {}) crashed: {s}", attr_name(sp.cfg.attr)), json!({}));
+                return;
+            }
+            _ => {
+                c.inconclusive("capi_create: unexpected answer".to_string());
+                return;
+            }
+        };
+        if answer == "fail|c06-slack" {
+            c.count("fresh_metadata_skipped|block-table-slack (C06 finding)", 1);
+            c.skip("the new block table entries do not fit into the slack before the appended data (known finding of C06)".to_string());
+            c.nontrivial = false;
+            return;
+        }
+        let Some(js) = answer.strip_prefix("ok|") else {
+            // creating / adding / flushing is C06's subject; nothing to verify here
+            c.count(&format!("fresh_metadata_not_created|{}", answer.split(' ').next().unwrap_or("")), 1);
+            c.inconclusive(format!("the archive could not be produced through the C API: {answer}"));
+            return;
+        };
+        let live: serde_json::Value = serde_json::from_str(js).unwrap_or(json!({}));
+        let empty = Built { path: base.path.clone(), bytes: vec![], files: vec![], regions: vec![], sector: base.sector, baseline_md5: None };
+        let fb = match remap(&empty, &files) {
+            Ok(b) => b,
+            Err(e) => {
+                c.inconclusive(format!("archive produced through the C API: {e}"));
+                return;
+            }
+        };
+        // the handle that wrote the archive
+        let bad: Vec<String> = live["files"].as_array().map(|a| a.iter().filter(|x| x["ok"] != true).map(|x| format!("{} (error {})", x["name"], x["err"])).collect()).unwrap_or_default();
+        c.count("baseline_verifications", files.len() as u64 + 1);
+        c.count("verified_on_the_handle_that_wrote_it", files.len() as u64 + 1);
+        if !bad.is_empty() || live["archive"] != true {
+            let not_found = live["files"].as_array().map(|a| a.iter().any(|x| x["err"] == 2)).unwrap_or(false);
+            c.violate(format!("intact-fails|attributes|SFileVerifyFile|handle-that-wrote-the-archive|{}", if not_found { "file-not-found" } else { "refused" }),
+                      format!("after SFileCreateArchive2 + SFileAddFileEx + SFileFlushArchive ({method}, {enc}, {}) the same handle does not verify the unmodified archive: SFileVerifyFile false for {bad:?}, SFileVerifyArchive(ALL_FILES) = {}", attr_name(sp.cfg.attr), live["archive"]), live.clone());
+        }
+        fb
+    } else {
+        if !slack_ok(base.bytes.len(), 1) {
+            c.count("fresh_metadata_skipped|block-table-slack (C06 finding)", 1);
+            c.skip("the new block table entry does not fit into the slack before the appended data (known finding of C06)".to_string());
+            c.nontrivial = false;
+            return;
+        }
+        let data = added_content(seed, &sp.cfg, 0xA2, 900);
+        let r = trap(|| -> Result<(), wow_mpq::Error> {
+            let mut m = MutableArchive::open(&base.path)?;
+            let mut o = AddFileOptions::new().compression(codec_enum(sp.cfg.method));
+            if sp.cfg.enc {
+                o = o.encrypt();
+            }
+            if sp.cfg.enc && sp.cfg.fixkey {
+                o = o.fix_key();
+            }
+            m.add_file_data(&data, ADDED_NAME, o)?;
+            m.flush()
+        });
+        match r {
+            Ok(Ok(())) => {}
+            other => {
+                c.inconclusive(format!("MutableArchive add + flush did not succeed: {}", match other { Ok(Err(e)) => e.to_string(), Err(p) => p.sig(), _ => String::new() }));
+                return;
+            }
+        }
+        match remap(base, &[(ADDED_NAME.to_string(), data)]) {
+            Ok(b) => b,
+            Err(e) => {
+                c.inconclusive(format!("archive after add + flush: {e}"));
+                return;
+            }
+        }
+    };
+    // ---- the intact archive, reopened: every file, every flag selection the archive has an attribute for. Every refusal is
+    // collected (not only the first): files the modification did not touch and files it added fail for different reasons.
+    let all: Vec<&StoredFile> = fb.files.iter().collect();
+    let names: Vec<&str> = all.iter().map(|f| f.name.as_str()).collect();
+    let v = isolated(&scratch, || {
+        let mut refused: Vec<serde_json::Value> = Vec::new();
+        for &flags in flag_selections(sp.cfg.attr) {
+            if flags == ARCHIVE_WIDE {
+                match c_verify_archive(&fb.path, VERIFY_ALL_FILES) {
+                    Some(true) => {}
+                    _ => refused.push(json!({"k": -1, "flags": flags_name(flags)})),
+                }
+                continue;
+            }
+            match c_verify(&fb.path, &names, flags) {
+                None => return Verdict::Detected("open".into()),
+                Some(r) => {
+                    for (k, ok) in r.iter().enumerate() {
+                        if !ok {
+                            refused.push(json!({"k": k, "flags": flags_name(flags)}));
+                        }
+                    }
+                }
+            }
+        }
+        if !refused.is_empty() {
+            return Verdict::Detected(format!("refused;;{}", json!(refused)));
+        }
+        probe_attr(&fb.path, &all, sp.flags)
+    });
+    c.count("baseline_verifications", (flag_selections(sp.cfg.attr).len() * names.len()) as u64);
+    c.count(&format!("fresh_metadata_intact_archives_verified|{route}"), 1);
+    match v {
+        Verdict::Harmless => {}
+        Verdict::Detected(why) => {
+            let refused: Vec<serde_json::Value> = why.strip_prefix("refused;;").and_then(|j| serde_json::from_str(j).ok()).unwrap_or_default();
+            if refused.is_empty() {
+                c.violate(format!("intact-fails|attributes|SFileOpenArchive|archive|after {route}"), format!("the unmodified archive after {route} + flush does not open through the C API ({why})"), json!({}));
+                return;
+            }
+            let sva = stored_vs_actual(&fb);
+            // one violation per (kind of file, what its attribute entry looks like): semantic classes, not names / codecs
+            let mut classes: std::collections::BTreeMap<String, (Vec<String>, Vec<String>)> = Default::default();
+            for r in &refused {
+                let k = r["k"].as_i64().unwrap_or(-1);
+                let flg = r["flags"].as_str().unwrap_or("").to_string();
+                if k < 0 {
+                    continue; // the archive-wide verifier refuses because a file does: reported through the file
+                }
+                let f = all[k as usize];
+                let e = &sva[k as usize];
+                let pred = match (e["stored_crc32"].as_str(), e["content_crc32"].as_str()) {
+                    (None, _) => "no-crc32-entry",
+                    (Some(s), Some(w)) if s == w => "crc32-entry-matches",
+                    (Some("00000000"), _) => "stored-crc32-zeroed",
+                    _ => "stored-crc32-differs",
+                };
+                let (which, key) = if f.shape == "added" { ("added-file", if f.flags & (FLAG_ENCRYPTED | FLAG_COMPRESS) != 0 { "stored-compressed-or-encrypted" } else { "stored-raw" }) } else { ("untouched-file", "any") };
+                let ent = classes.entry(format!("intact-fails|attributes|SFileVerifyFile|{which}|after {route}|{pred}|{key}")).or_default();
+                if !ent.0.contains(&f.name) {
+                    ent.0.push(f.name.clone());
+                }
+                if !ent.1.contains(&flg) {
+                    ent.1.push(flg);
+                }
+            }
+            let archive_wide_only = classes.is_empty();
+            if archive_wide_only {
+                classes.insert(format!("intact-fails|attributes|SFileVerifyArchive(ALL_FILES)|archive|after {route}|every-file-verifies-alone"), (vec![], vec!["SFileVerifyArchive(ALL_FILES)".into()]));
+            }
+            for (sig, (fnames, flgs)) in classes {
+                c.violate(sig, format!("verifying the unmodified archive after {route} + flush ({method}, {enc}, {}) fails: SFileVerifyFile returned false for {fnames:?} with flags {flgs:?}", attr_name(sp.cfg.attr)), json!({"refused": refused, "files": sva}));
+            }
+            // the sweep over the added file is still meaningful when the added file itself verifies on the intact archive
+            // and the verifier of this case looks at that file alone
+            let added_refused = refused.iter().any(|r| r["k"].as_i64().map(|k| k >= 0 && all[k as usize].name == ADDED_NAME).unwrap_or(false));
+            let alone_ok = sp.flags != ARCHIVE_WIDE && !added_refused && {
+                let one: Vec<&StoredFile> = all.iter().copied().filter(|f| f.name == ADDED_NAME).collect();
+                matches!(isolated(&scratch, || probe_attr(&fb.path, &one, sp.flags)), Verdict::Harmless)
+            };
+            if !alone_ok {
+                c.count("fresh_metadata_sweeps_masked_by_intact_failure", 1);
+                return;
+            }
+            c.count("fresh_metadata_sweeps_despite_other_files_refused", 1);
+        }
+        Verdict::Undetected(d) => {
+            c.violate(format!("intact-differs|attributes|read_file|after {route}"), format!("the unmodified archive ({method}, {enc}) does not read back what was added"), d);
+            return;
+        }
+        Verdict::Crash(s) => {
+            c.violate(format!("intact-fails|attributes|SFileVerifyFile|archive|after {route}|{s}"), format!("verifying the unmodified archive ({method}, {enc}) crashes: {s}"), json!({}));
+            return;
+        }
+    }
+    // ---- alterations of the added file's stored bytes
+    let ai = fb.files.iter().position(|f| f.name == ADDED_NAME).unwrap();
+    let f = &fb.files[ai];
+    let r = fb.region("file_data", Some(ai)).unwrap();
+    let alts = alterations(&fb.bytes, &r.ranges, sp.ck, stride, phase);
+    let one = [f];
+    let t = sweep(c, &fb, r.ranges[0].0, alts, &[], true, || probe_attr(&fb.path, &one, sp.flags));
+    t.flush(c, &format!("attributes|file_data|added|{route}"));
+    c.count(&format!("corrupted_by_verifier_flags|{fl}"), t.probes);
+    if t.probes == 0 {
+        c.nontrivial = false;
+    }
+    if t.violated > 0 {
+        c.violate(format!("undetected|attributes|file_data|added-file|after {route}|{method}|{enc}|{akind}"), format!("{} of {} alterations ({}) of the stored bytes of the file added through {route} ({method}, {enc}, {akind}): the verifier (flags = {fl}) returned true and read_file returned Ok with different content", t.violated, t.probes, sp.ck), t.first_viol.clone().unwrap_or(json!({})));
     }
 }
 
